@@ -17,8 +17,6 @@ import (
 	"git.torproject.org/pluggable-transports/snowflake.git/v2/internal/verifapi"
 )
 
-type verifStop struct{}
-
 var (
 	verifUnsafe   bool
 	verifWired    int
@@ -116,12 +114,12 @@ func verifSetOutput(w io.Writer) {
 		verifapi.Cover("bytes reached a sink")
 	}
 	if verifWired >= int(verifapi.Param("STOP", 1)) {
-		panic(verifStop{})
+		os.Exit(0) // stop main() here
 	}
 }
 
 func VerifC07_MainLogWiring() {
-	verifapi.ExpectPanic(func() { main() })
+	verifapi.ExpectExit(func() { main() }) // a Go panic inside main() stays a violation
 	verifapi.Cover("main returned or stopped")
 }
 
